@@ -16,6 +16,7 @@ fn run_scenario(sc: &Scenario) -> String {
         "MC" => mc::run(sc),
         "SIM" => sim::run(sc),
         "HANDOFF" => handoff::run(sc),
+        "PYTWIN" => handoff::run_twins(sc),
         c => format!("UNSUPPORTED {}\n", c),
     }
 }
